@@ -60,6 +60,10 @@ class C11Part(qw.WirePart):
             out.append("PFX size=%d accepts=%s" % (g["size"], "none" if not acc else ";".join("%d:<accepted-by-implementation>" % i for i in acc)))
         return out
 
+    def allowed_prefixes(self, g):
+        """prefix lengths that the SPECIFICATION reader accepts with the full image's content (none for images this tree writes)"""
+        return ()
+
     def field(self, g, off):
         try:
             f = qw.model_query(["FIELDS %s %s" % (g["kind"], g["hex"])])[0]
@@ -74,7 +78,7 @@ class C11Part(qw.WirePart):
                 break
             w = l.split()
             o = impl_out[i]
-            if w[0] not in ("pfx", "cor"):
+            if w[0] not in ("pfx", "cor", "pfximg", "corimg"):
                 if o.strip() == "throw":
                     bad.append(("%s/%s-threw" % (self.fam, w[0]), l[:80], i))
                 continue
@@ -83,13 +87,14 @@ class C11Part(qw.WirePart):
                 bad.append(("%s/%s-%s" % (self.fam, w[0], "threw" if o.strip().startswith("throw") else "bad-observation"), o[:120], i))
                 continue
             seen = set()
+            allowed = self.allowed_prefixes(g) if w[0].startswith("pfx") else ()
             for pi, path in enumerate(("bytes", "stream")):
                 codes = g[path]
-                if w[0] == "pfx":
+                if w[0].startswith("pfx"):
                     if len(codes) != g["size"]:
                         bad.append(("%s/pfx-incomplete" % self.fam, "%d of %d prefixes ran" % (len(codes), g["size"]), i))
                     for n, c in enumerate(codes):
-                        if c == "t":
+                        if c == "t" or (c == "a" and n in allowed):
                             continue
                         if c in "ade":
                             key = "%s/%s/prefix-accepted@%s" % (self.fam, path, qw.field_region(self.field(g, n)))
@@ -138,7 +143,70 @@ class C11Part(qw.WirePart):
         return tuple(sorted(sig)) if sig else None
 
 
-PARTS = [C11Part(f) for f in qw.FAMS_ON]
+class StoredImages(C11Part):
+    """the same sweeps over images this tree does not write: the shipped .sk reference files (older serial versions, written by
+    other versions / languages) and legacy images made by the Lean legacy encoders (KLL v1 single item, quantiles v1 / v2).
+    The older formats have fields of their own (the unused long of quantiles v1, unused base-buffer slots of non-compact images),
+    each read by code no current image reaches.  Where the documented reader itself needs only a prefix (trailing slack of a
+    non-compact image), accepting that prefix with the same content is right: the allowed lengths come from the Lean reader."""
+
+    def __init__(self, fam):
+        super().__init__(fam)
+        self.name = fam + "-stored"
+        self._allowed = {}
+
+    def generate(self, rng, tier):
+        from . import c10_quant
+        imgs = [(k, hx) for k, hx, _c, src in c10_quant.corpus_lines(self.fam) if src == "shipped" and hx != "-" and len(hx) <= 2 * 1200]
+        imgs += [(k, hx) for k, hx, _c, _s in c10_quant.legacy_lines(self.fam, rng, 10 if tier == "quick" else 80) if len(hx) <= 2 * 1200]
+        imgs = list(dict.fromkeys(imgs))
+        hs = []
+        try:
+            flds = qw.model_query(["FIELDS %s %s" % im for im in imgs]) if imgs else []
+        except Exception:
+            flds = [""] * len(imgs)
+        for (k, hx), f in zip(imgs, flds):
+            ofs = qw.structural_offsets(f) if f.startswith("FIELDS") else []
+            h = ["pfximg %s %s" % (k, hx)]
+            if ofs:
+                h.append("corimg %s %s %s" % (k, hx, ",".join(map(str, ofs))))
+            hs.append(h)
+        return hs
+
+    def allowed_prefixes(self, g):
+        key = (g["kind"], g["hex"])
+        if key not in self._allowed:
+            try:
+                self._allowed[key] = self._model_accepts(qw.model_query(["PFX %s %s" % key])[0])
+            except Exception:
+                self._allowed[key] = set()
+        return self._allowed[key]
+
+    @staticmethod
+    def _model_accepts(line):
+        m = re.match(r"^PFX size=\d+ accepts=(.*)$", line.strip())
+        if not m or m.group(1) == "none":
+            return set()
+        return set(int(t.split(":", 1)[0]) for t in m.group(1).split(";") if t.split(":", 1)[0].isdigit())
+
+    def expected_model_out(self, hist, impl_out):
+        out = []
+        for g in self.pfx_lines(impl_out):
+            acc = sorted(set(i for p in ("bytes", "stream") for i, c in enumerate(g[p]) if c in "ade"))
+            out.append("PFX size=%d accepts=%s" % (g["size"], ",".join(map(str, acc)) or "none"))
+        return out
+
+    def diff(self, hist, impl_out, model_out):
+        # verdict per prefix length: the implementation accepts exactly the lengths the documented reader accepts
+        exp = self.expected_model_out(hist, impl_out)
+        mo = []
+        for l in model_out:
+            m = re.match(r"^PFX size=(\d+) accepts=", l)
+            mo.append("PFX size=%s accepts=%s" % (m.group(1), ",".join(map(str, sorted(self._model_accepts(l)))) or "none") if m else l)
+        return core.first_diff(exp, mo, None)
+
+
+PARTS = [C11Part(f) for f in qw.FAMS_ON] + [StoredImages(f) for f in qw.FAMS_ON if f in ("kll", "quant")]
 
 CLAIM_TEXT = ("KLL, REQ and classic-quantiles readers: the specification readers are built only from bounds-checked combinators; kernel-checked "
               "prefix safety (`decode_PS`), rejection of EVERY strict prefix of every well-formed image (`prefix_rejected`) and "
